@@ -15,7 +15,7 @@ FLOORS = {'quick': {'groups_evaluated': 150, 'process_views_compared': 3000, 'ru
                     'pairs_compared': 1500},
           'thorough': {'groups_evaluated': 4000, 'process_views_compared': 80000, 'running_views_compared': 12000,
                        'pairs_compared': 40000}}
-COUNT = {'quick': 640, 'thorough': 12000}
+COUNT = {'quick': 1600, 'thorough': 12000}
 BUDGET_S = {'quick': 55, 'thorough': 540}
 
 KNOBS = {'n_min': 2, 'n_max': 4,
